@@ -145,15 +145,21 @@ impl CacheKey for RowIdIndexKey {
 }
 
 #[derive(Debug)]
-pub struct RowIdSequenceKey {
+pub struct RowIdSequenceKey<'a> {
     pub fragment_id: u64,
+    /// Path of the fragment's first data file.  Fragment ids start again from zero after an
+    /// overwrite, so the id alone does not identify a fragment across versions of a table.
+    pub data_file: &'a str,
 }
 
-impl CacheKey for RowIdSequenceKey {
+impl CacheKey for RowIdSequenceKey<'_> {
     type ValueType = RowIdSequence;
 
     fn key(&self) -> Cow<'_, str> {
-        Cow::Owned(format!("row_id_sequence/{}", self.fragment_id))
+        Cow::Owned(format!(
+            "row_id_sequence/{}/{}",
+            self.fragment_id, self.data_file
+        ))
     }
 }
 
